@@ -726,6 +726,11 @@ class Interp:
                         return ('class', orig)
                     if orig in other.funcs:
                         return ('extern', other.name, orig)
+                    try:
+                        if orig in other.regexes():
+                            return ARegex(orig)
+                    except Exception:
+                        pass
                     if orig in other.assigns and len(other.assigns[orig]) == 1:
                         from .core import const_eval
                         try:
